@@ -153,7 +153,7 @@ def run_case(case):
         if what == "bad_n":
             bad = BAD[case["bad"]]
             res.nontrivial = True
-            for name, call in (("sample", lambda: obj.sample(bad, ctx)),):
+            for name, call in (("sample", lambda: obj.sample(bad, ctx)), ("sample_and_log_prob", lambda: obj.sample_and_log_prob(bad, ctx))):
                 if not can_sample:
                     continue
                 try:
